@@ -11,6 +11,7 @@ from .tree import *  # noqa
 from . import tree as _tree
 
 _KNOWN = None
+_FN_COUNTER = [0]
 
 
 def known_fns():
@@ -55,14 +56,14 @@ def rename_to_known(g):
     g["renamed"] = sorted(set(ren.values()))
 
 
-def _offset_ids(n, off):
+def _offset_ids(n, off, mark_returns=True):
     stack = [n]
     while stack:
         x = stack.pop()
         if isinstance(x, dict):
             if x.get("k") in ("local", "pbind") and isinstance(x.get("id"), int):
                 x["id"] += off
-            if x.get("k") == "return":
+            if mark_returns and x.get("k") == "return":
                 x["inl"] = True
             for v in x.values():
                 if isinstance(v, (dict, list)):
@@ -92,6 +93,11 @@ def inline_helpers(f, crate, depth=2, _callers=None, _counter=None):
     g["body"] = copy.deepcopy(f["body"])
     g["params"] = copy.deepcopy(f.get("params", []))
     rename_to_known(g)
+    # local ids are per-function in the facts: make them globally unique so that alias / let tables can be shared
+    _FN_COUNTER[0] += 1
+    base = 10000000 * _FN_COUNTER[0]
+    _offset_ids(g["body"], base, False)
+    _offset_ids(g["params"], base, False)
     changed = [False]
 
     def helper_of(n):
@@ -120,7 +126,7 @@ def inline_helpers(f, crate, depth=2, _callers=None, _counter=None):
             h = helper_of(n)
             if h is not None:
                 _counter[0] += 1
-                off = 100000 * _counter[0]
+                off = base + 100000 * _counter[0]
                 body = copy.deepcopy(h["body"])
                 params = copy.deepcopy(h["params"])
                 _offset_ids(body, off)
@@ -179,8 +185,7 @@ def opt_elim(n):
        `s.unwrap_or(d)`, `s.unwrap_or_else(|| d)`, `match s {Some(x) => a, None => b}`, `if let Some(x) = s {a} else {b}`, `s.map_or(d, |x| a)`;
        `bind` is the id bound to the payload (None: the payload itself is the result)"""
     n = peel(n)
-    while n.get("k") == "blockexpr" and not n["b"]["stmts"] and "tail" in n["b"]:
-        n = peel(n["b"]["tail"])
+    n = tail_value(n)
     k = n.get("k")
     if k == "mcall" and n["name"] in ("unwrap_or", "unwrap_or_else", "unwrap_or_default") and "Option" in (n.get("path") or ""):
         d = n["args"][0] if n["args"] else None
@@ -223,7 +228,7 @@ def tail_value(e):
     e = peel(e)
     while e.get("k") in ("blockexpr", "block"):
         b = e["b"] if e.get("k") == "blockexpr" else e
-        if b.get("stmts") or "tail" not in b:
+        if any(not s_.get("inl_param") for s_ in b.get("stmts", [])) or "tail" not in b:
             break
         e = peel(b["tail"])
     return e
@@ -239,3 +244,38 @@ def converts_param(e, pid):
     if e.get("k") == "call" and (callee(e) or "").endswith("::from") and len(e["args"]) == 1:
         return converts_param(e["args"][0], pid)
     return False
+
+
+def enum_dispatch(n, lid, enum_prefix):
+    """{variant name: branch expression} for a two-way dispatch on the local `lid` of a field-less enum:
+       `if lid == E::A {x} else {y}` (either polarity / operand order) or `match lid {E::A => x, E::B => y}` / with a wildcard arm.
+       `other` names the branch taken for every other variant."""
+    n = tail_value(n)
+    if n.get("k") == "if" and "else" in n:
+        c = resolve(n["cond"])
+        if c.get("k") == "binary" and c["op"] in ("==", "!="):
+            for a, b in ((c["l"], c["r"]), (c["r"], c["l"])):
+                b = peel(b)
+                if is_local(a, lid) and b.get("k") == "def" and (b.get("path") or "").startswith(enum_prefix):
+                    v = b["path"][len(enum_prefix):]
+                    t, e = n["then"], n["else"]
+                    if c["op"] == "!=":
+                        t, e = e, t
+                    return {v: t, "other": e}
+        return None
+    if n.get("k") == "match" and is_local(n["scrut"], lid):
+        out = {}
+        for arm in n["arms"]:
+            if "guard" in arm:
+                return None
+            for alt in pat_alts(arm["pat"]):
+                while alt.get("k") == "pref":
+                    alt = alt["sub"]
+                if alt.get("k") in ("pconst", "pvariant") and alt.get("path", "").startswith(enum_prefix) and not alt.get("subs"):
+                    out[alt["path"][len(enum_prefix):]] = arm["body"]
+                elif alt.get("k") in ("pwild", "pbind"):
+                    out["other"] = arm["body"]
+                else:
+                    return None
+        return out
+    return None
